@@ -1,13 +1,12 @@
 package initializer
 
-// Replay concretiser for obligations of initializer.buildPack (C20).
-// The solver's model speaks about uninterpreted strings; it is realised from a small pool of
-// image references: with a registry host the repository string differs from the package
-// source, without one they coincide.
+// verif:search
+// Replay concretiser for obligations of initializer.buildPack (C20). The solver's model speaks
+// about uninterpreted strings; a failing input is looked for in a small pool of image
+// references (with and without a registry host, docker.io forms that the registry library
+// canonicalises, tag and digest), each installed already or not.
 
 import (
-	"encoding/json"
-	"os"
 	"testing"
 
 	"github.com/google/go-containerregistry/pkg/name"
@@ -16,45 +15,51 @@ import (
 	"github.com/crossplane/crossplane/internal/xpkg"
 )
 
-type verifModel struct {
-	Label  string            `json:"label"`
-	Values map[string]string `json:"values"`
-}
-
 func TestVerifReplay(t *testing.T) {
-	b, err := os.ReadFile(os.Getenv("VERIF_MODEL"))
-	if err != nil {
-		t.Skip("no model")
+	pool := []string{
+		"xpkg.upbound.io/crossplane-contrib/provider-aws:v2.0.0",
+		"registry.example.org:5000/org/provider-x@sha256:" + "0123456789abcdef0123456789abcdef0123456789abcdef0123456789abcdef",
+		"crossplane-contrib/provider-aws:v2.0.0",
+		"docker.io/crossplane/provider-nop:v0.3.0",
+		"docker.io/provider-nop",
+		"index.docker.io/crossplane/provider-nop:v0.3.0",
 	}
-	var m verifModel
-	if err := json.Unmarshal(b, &m); err != nil {
-		t.Fatal(err)
-	}
-	pool := []string{"xpkg.upbound.io/crossplane-contrib/provider-aws:v2.0.0", "registry.example.org:5000/org/provider-x@sha256:" + "0123456789abcdef0123456789abcdef0123456789abcdef0123456789abcdef"}
-	if m.Values["samekey"] == "true" {
-		pool = []string{"crossplane-contrib/provider-aws:v2.0.0"}
-	}
+	n := 0
 	for _, img := range pool {
-		ref, err := name.ParseReference(img, name.WithDefaultRegistry(""))
-		if err != nil {
-			t.Fatal(err)
-		}
-		src := xpkg.ParsePackageSourceFromReference(ref)
-		pkgMap := map[string]string{}
-		if m.Values["installed"] != "false" {
-			// what PackageInstaller.Run records for an installed package with this source
-			pkgMap[src] = "my-custom-name"
-		}
-		p := &v1.Provider{}
-		if err := buildPack(p, img, pkgMap); err != nil {
-			t.Fatal(err)
-		}
-		t.Logf("image=%s source=%s repository=%s installed-as=%v -> name=%s", img, src, ref.Context().RepositoryStr(), pkgMap, p.GetName())
-		if existing, ok := pkgMap[src]; ok && p.GetName() != existing {
-			t.Fatalf("VERIF-REPRODUCED: package with source %q is installed as %q but init would install it again as %q", src, existing, p.GetName())
-		}
-		if _, ok := pkgMap[src]; !ok && p.GetName() != xpkg.ToDNSLabel(ref.Context().RepositoryStr()) {
-			t.Fatalf("VERIF-REPRODUCED: new package %q named %q instead of %q", img, p.GetName(), xpkg.ToDNSLabel(ref.Context().RepositoryStr()))
+		for _, installed := range []bool{false, true} {
+			n++
+			ref, err := name.ParseReference(img, name.WithDefaultRegistry(""))
+			if err != nil {
+				t.Fatal(err)
+			}
+			src := xpkg.ParsePackageSourceFromReference(ref)
+			pkgMap := map[string]string{}
+			if installed {
+				// what PackageInstaller.Run records for an installed package with this source
+				pkgMap[src] = "my-custom-name"
+			}
+			p := &v1.Provider{}
+			if err := buildPack(p, img, pkgMap); err != nil {
+				t.Fatal(err)
+			}
+			if existing, ok := pkgMap[src]; ok && p.GetName() != existing {
+				t.Fatalf("VERIF-REPRODUCED: package with source %q is installed as %q but init would install it again as %q", src, existing, p.GetName())
+			}
+			if _, ok := pkgMap[src]; !ok && p.GetName() != xpkg.ToDNSLabel(ref.Context().RepositoryStr()) {
+				t.Fatalf("VERIF-REPRODUCED: new package %q named %q instead of %q", img, p.GetName(), xpkg.ToDNSLabel(ref.Context().RepositoryStr()))
+			}
+			if p.GetSource() != img {
+				t.Fatalf("VERIF-REPRODUCED: asked to install %q, spec.package is %q (the next start looks the package up by the requested image and does not find it)", img, p.GetSource())
+			}
+			// the next start indexes the installed package by the source it reads back
+			ref2, err := name.ParseReference(p.GetSource(), name.WithDefaultRegistry(""))
+			if err != nil {
+				t.Fatalf("VERIF-REPRODUCED: spec.package %q does not parse: %v", p.GetSource(), err)
+			}
+			if back := xpkg.ParsePackageSourceFromReference(ref2); back != src {
+				t.Fatalf("VERIF-REPRODUCED: %q is installed with spec.package %q, which the next start indexes as %q, not %q: it installs the package a second time", img, p.GetSource(), back, src)
+			}
 		}
 	}
+	t.Logf("searched %d (image, installed) pairs: contract holds on all of them", n)
 }
